@@ -3,7 +3,7 @@ from tools.vlib import *
 from checks import peaklib
 from checks.c13 import decide
 
-THEOREMS_C14 = ["C14_drop_last", "C14_slice", "C14_incremental", "C14_eq_length", "C14_fused_stepwise", "C14_nonvacuous"]
+THEOREMS_C14 = ["C14_drop_last", "C14_slice", "C14_incremental", "C14_eq", "C14_peak_eq", "C14_fused_stepwise", "C14_nonvacuous"]
 
 
 def run(run, args):
